@@ -39,6 +39,11 @@ def run(ctx):
                 cases.append(common.normalize(mu[0]))
     reqs, exp = [], []
     for d in cases:
+        if rng.random() < 0.08:
+            # an earlier call in the same process gave up half-way (caught by the application): the next tree must be
+            # named as if nothing had happened
+            trees.poison(rng, d, I.naming.auto_name)
+            ctx.count("history: call that fails half-way")
         o = common.load_tree(d)
         info = {"tree": d}
         try:
